@@ -11,6 +11,9 @@ import NxModel.DriverUtil
   nnas <setter> … -- login <s:user> <s:pw> <s:type|none>  |  token <s:tok> <n:id>     -> <urlhex>|<requesthex>
   nasc <s:bssid> <setter> … -- login <n:id> <s:nick> <s:devtime>                       -> ok <urlhex>|<requesthex> | err <E> [<index of failing setter>]
   hpp <n:id> <s:env|none>                        -> <hosthex>
+  nnas calls also: svctoken <s:tok> <s:client_id> | profile <s:tok> | miis <ln:1,2> | pids <ls:hex,hex> | nnids <ln:…>
+  nnasfields <setter>                            -> h:<namehex>=<valuehex> … l:<namehex>=<valuehex> …   (documented headers; l = login only) | -
+  nascfields <setter>                            -> f:<namehex>=<rawhex> … h:<namehex>=<valuehex> …     (documented form fields before base64 / headers) | -
   pyval: i<int> s<hex> T F N ;  setter: name(arg;arg;…) with args n:<dec> s:<hex> b:<hex> none
 -/
 open Nx Nx.Http Nx.Api
@@ -76,7 +79,9 @@ def showObs (o : Obs) : String :=
 /-! setters of nnas / nasc -/
 
 inductive A where
-  | n (v : Nat) | s (v : String) | b (v : Bytes) | none
+  | n (v : Nat) | s (v : String) | b (v : Bytes) | none | ln (v : List Nat) | ls (v : List String)
+
+def splitL (v : String) : List String := if v = "-" then [] else v.splitOn ","
 
 def parseA (t : String) : Option A :=
   if t = "none" then some .none else
@@ -84,6 +89,8 @@ def parseA (t : String) : Option A :=
   | ["n", v] => v.toNat?.map .n
   | ["s", v] => (strOfHex v).map .s
   | ["b", v] => (fromHex v).map .b
+  | ["ln", v] => ((splitL v).mapM String.toNat?).map .ln
+  | ["ls", v] => ((splitL v).mapM strOfHex).map .ls
   | _ => Option.none
 
 def parseSetter (t : String) : Option (String × List A) :=
@@ -143,7 +150,40 @@ def runNnas (toks : List String) : Option String := do
     match parseA t, parseA g with
     | some (.s t), some (.n g) => some (showSent (s.getNexToken t g))
     | _, _ => Option.none
+  | ["svctoken", t, c] =>
+    match parseA t, parseA c with
+    | some (.s t), some (.s c) => some (showSent (s.getServiceToken t c))
+    | _, _ => Option.none
+  | ["profile", t] =>
+    match parseA t with
+    | some (.s t) => some (showSent (s.getProfile t))
+    | _ => Option.none
+  | ["miis", l] =>
+    match parseA l with
+    | some (.ln l) => some (showSent (s.getMiis l))
+    | _ => Option.none
+  | ["pids", l] =>
+    match parseA l with
+    | some (.ls l) => some (showSent (s.getPids l))
+    | _ => Option.none
+  | ["nnids", l] =>
+    match parseA l with
+    | some (.ln l) => some (showSent (s.getNnids l))
+    | _ => Option.none
   | _ => Option.none
+
+def showFields (tag : String) (l : List (String × String)) : List String :=
+  l.map fun (k, v) => tag ++ ":" ++ hexOfStr k ++ "=" ++ hexOfStr v
+
+def orDash (l : List String) : String := if l.isEmpty then "-" else " ".intercalate l
+
+def runNnasFields (t : String) : Option String := do
+  let st ← (parseSetter t).bind nnasSetter
+  pure (orDash (showFields "h" st.fields ++ showFields "l" st.loginFields))
+
+def runNascFields (t : String) : Option String := do
+  let st ← (parseSetter t).bind nascSetter
+  pure (orDash ((st.fields.map fun (k, v) => "f:" ++ hexOfStr k ++ "=" ++ hexOut v.bytes) ++ showFields "h" st.hdrFields))
 
 def runNasc (toks : List String) : Option String := do
   match toks with
@@ -203,6 +243,8 @@ def step (st : St) (line : String) : St × String :=
     match construct st name, ops.mapM parseAssign with
     | some (s, none), some ops => (st, showObs (observe (applySeq s ops).1))
     | _, _ => (st, "bad-op")
+  | ["nnasfields", t] => (st, (runNnasFields t).getD "bad-op")
+  | ["nascfields", t] => (st, (runNascFields t).getD "bad-op")
   | "nnas" :: toks => (st, (runNnas toks).getD "bad-op")
   | "nasc" :: toks => (st, (runNasc toks).getD "bad-op")
   | ["hpp", g, e] =>
